@@ -20,8 +20,22 @@
 #
 #############################################################################
 
+from dashlive.utils.date_time import from_isodatetime
+
 from .dash_option import DashOption
 from .types import OptionUsage
+
+def _corruption_from_string(value: str) -> list[str]:
+    items: list[str] = DashOption.list_without_none_from_string(value)
+    for item in items:
+        # each entry is a segment number or a time of day (HH:MM:SSZ)
+        try:
+            int(item, 10)
+        except ValueError:
+            if from_isodatetime(item) is None:
+                raise ValueError(f'Invalid time: {item}')
+    return items
+
 
 VideoCorruption = DashOption(
     usage=(OptionUsage.MANIFEST | OptionUsage.VIDEO),
@@ -32,7 +46,7 @@ VideoCorruption = DashOption(
         'Cause video corruption to be generated when requesting a fragment at the given time. ' +
         'Invalid data is placed inside NAL packets of video frames. ' +
         'Each time must be in the form HH:MM:SSZ.'),
-    from_string=DashOption.list_without_none_from_string,
+    from_string=_corruption_from_string,
     cgi_name='vcorrupt',
     cgi_type='<time>,..',
     featured=False)
